@@ -349,6 +349,7 @@ func runPubStack(e *vlib.Env) vlib.Result {
 	expMetric := map[string]int{}
 	var shapes []string
 	refused, forwarded, stamped := 0, 0, 0
+	genFailAllowN, genErrAsIs := 0, 0
 
 	body := func() {
 		for c, cp := range calls {
@@ -376,7 +377,12 @@ func runPubStack(e *vlib.Env) vlib.Result {
 					st[i].source = "meta"
 				}
 			}
-			refusedAt, refuseKind, ambiguous := -1, "", false
+			// genFailAllow: the refusing generator failure happened in a layer with AllowNoDelay set. That is still a
+			// refusal: PublisherConfig's godoc ties AllowNoDelay to the absence of a generator ("By default, the publisher
+			// returns an error when a message is published without a delay and no default delay generator is provided"),
+			// and the statement's precedence chain ends in "else the default generator" whenever one is configured - its
+			// failure is an error of Publish (every error passes through), not "no delay is available".
+			refusedAt, refuseKind, genFailAllow := -1, "", false
 			metricsReached := false
 			reachedT := map[string]bool{}
 		walk:
@@ -402,7 +408,7 @@ func runPubStack(e *vlib.Env) vlib.Result {
 						}
 						if l.Gen != "none" {
 							if l.gen[mp.UUID].fail {
-								refusedAt, refuseKind, ambiguous = li, "generator-failed", l.AllowNoDelay
+								refusedAt, refuseKind, genFailAllow = li, "generator-failed", l.AllowNoDelay
 								break walk
 							}
 							st[i].source, st[i].genL = "gen", l
@@ -417,10 +423,6 @@ func runPubStack(e *vlib.Env) vlib.Result {
 			}
 
 			// ---- the real call
-			var metricBefore map[string]int
-			if ambiguous {
-				metricBefore, _ = gatherBy(reg, famPublish, "success")
-			}
 			before := len(inner.Calls())
 			gotErr := top.Publish(cp.Topic, msgs...)
 			after := inner.Calls()
@@ -455,34 +457,23 @@ func runPubStack(e *vlib.Env) vlib.Result {
 				res.Fail("publish-forwarded-once", "%s: the inner publisher saw %d calls for one Publish (batch must be forwarded in one call)", describe(), len(newCalls))
 				return
 			}
-			if ambiguous {
-				// generator failed and AllowNoDelay is set: the statement does not decide between refusing
-				// and forwarding; only the error/forward coherence is judged.
-				if len(newCalls) == 0 && gotErr == nil {
-					res.Fail("publish-lost", "%s: returned nil but nothing reached the inner publisher", describe())
-					return
-				}
-				cp.Outcome = "ambiguous(generator failed, AllowNoDelay)"
-				shapes = append(shapes, fmt.Sprintf("%d:amb", len(msgs)))
-				// metric: which layers were reached is not decided either, so the observation of this call is taken
-				// from the registry: at most one, with the label of the returned error, and one for sure
-				// when a metrics decorator sits outside the delay layer.
-				metricAfter, _ := gatherBy(reg, famPublish, "success")
-				label := fmt.Sprint(gotErr == nil)
-				dT, dF := metricAfter["true"]-metricBefore["true"], metricAfter["false"]-metricBefore["false"]
-				must := metricsBefore(layers, refusedAt) && len(msgs) > 0
-				if dT < 0 || dF < 0 || dT+dF > 1 || (dT+dF == 1 && metricAfter[label] == metricBefore[label]) || (must && dT+dF != 1) {
-					res.Fail("metrics-publish-count", "%s: this call (returned err=%v) changed publish_time_seconds sample counts from %s to %s", describe(), gotErr, fmtCounts(metricBefore), fmtCounts(metricAfter))
-					return
-				}
-				expMetric["true"] += dT
-				expMetric["false"] += dF
-				res.Count("calls_ambiguous", 1)
-				continue
-			}
 			if refusedAt >= 0 {
 				refused++
 				cp.Outcome = "refused:" + refuseKind
+				if genFailAllow {
+					genFailAllowN++
+					if len(newCalls) != 0 || gotErr == nil {
+						res.Fail("generator-error-swallowed", "%s: the default generator of layer %d (%s) returned an error for a message without metadata / context delay; AllowNoDelay only covers a missing generator, "+
+							"so Publish has to fail and publish nothing, but it returned err=%v and %d call(s) reached the inner publisher", describe(), refusedAt, layers[refusedAt], gotErr, len(newCalls))
+						if len(newCalls) == 1 {
+							res.Witness = map[string]any{"forwarded_snapshots": newCalls[0].Snaps}
+						}
+						return
+					}
+				}
+				if refuseKind == "generator-failed" && errors.Is(gotErr, errGenerator) {
+					genErrAsIs++
+				}
 				if len(newCalls) != 0 {
 					res.Fail("publish-without-delay", "%s: layer %d (%s) has no delay for a message (%s) but the batch reached the inner publisher (returned err=%v)",
 						describe(), refusedAt, layers[refusedAt], refuseKind, gotErr)
@@ -646,6 +637,8 @@ func runPubStack(e *vlib.Env) vlib.Result {
 	res.Count("publish_calls", nCalls)
 	res.Count("calls_forwarded", forwarded)
 	res.Count("calls_refused", refused)
+	res.Count("calls_generator_failed_allow_no_delay", genFailAllowN)
+	res.Count("generator_errors_returned_as_is", genErrAsIs)
 	res.Count("messages_stamped", stamped)
 	res.Count("metric_observations_expected", expMetric["true"]+expMetric["false"])
 	res.Count("transform_invocations", tlog.total())
